@@ -448,6 +448,9 @@ func partB(r *vrun.Run, scratch string) {
 			return
 		}
 		canon := fmt.Sprintf("%s|%s|k=%d", j.ep.name, backend, j.k)
+		if i%701 == 3 && r.WantSample() {
+			r.Sample(map[string]any{"entry_point": j.ep.name, "backend": backend, "cancel_inside_backend_op": j.k, "ops_uncancelled": j.n, "ops_after_cancel": res.opsAfter, "mutating_ops_after_cancel": res.mutAfter, "result": fmt.Sprint(res.err)})
+		}
 		witness := func() map[string]any {
 			again, _, _, _ := runOnce(j.ep, j.mem, scratch, j.k, true)
 			var tr []string
